@@ -15,7 +15,9 @@ MISMATCH_FN = "mismatch"
 # admin violates it -> open KNOWN FINDING (known_findings.json, signature {"kind": "burnnative-moves-tf-supply"}).
 # C15_LENIENT=1 evaluates the form the implementation realises (native burn of the signer's own coins allowed).
 VIOLATES_FN = "violates" if os.environ.get("C15_LENIENT") else "violates_strict"
-RULE = ("case = optional genesis denoms (renounced / foreign admin, pre-funded) + 4-12 token-factory messages "
+RULE = ("txs of 1-4 messages (35 % of the cases hold a tx whose LATER message fails — blocked target, unknown denom, not admin, "
+        "insufficient funds — after a hand-over / mint in the same tx, signed by one or two signers, followed by mint / burn / hand-over "
+        "attempts of every party); case = optional genesis denoms (renounced / foreign admin, pre-funded) + 4-12 token-factory messages "
         "(CreateDenom, Mint, Burn, ChangeAdmin, SetDenomMetadata, BurnNative) each delivered through DeliverTx, signed by "
         "current admin / former admin / other users; denoms: existing ones (any creator), 16 look-alike / malformed / non-tf "
         "shapes; amounts incl. 0, negative, above balance; mint-to / burn-from: default, other users, blocked and unblocked "
@@ -24,7 +26,7 @@ RULE = ("case = optional genesis denoms (renounced / foreign admin, pre-funded) 
         "hand-over) was rejected; distinct = distinct input")
 ASSUMPTIONS = [
     "sdk.ValidateDenom, bech32 parsing of mint_to/burn_from/new_admin and bank Metadata.Validate are taken from the implementation as flags (dv, target, na_valid, md_valid)",
-    "every tx carries one message, is signed by its sender, fee 0",
+    "every tx is signed by all its senders, fee 0; snapshots are taken after each TX",
     "addresses are renamed to @i / @Ui (injective), denoms keep their exact characters otherwise",
 ]
 TRUSTED = ["snapshot reads: BankKeeper.GetSupply / GetBalance, TokenFactoryKeeper.Store.GetDenomAuthorityMetadata"]
@@ -76,21 +78,34 @@ def _op(op, ob):
     return "BurnNative %s %s %s %s" % (s, d, _b(ob["dv"]), _z(op.get("amt", 0)))
 
 
+def _txs(rec):
+    """group the flat message list into txs ("join": the message rides in the tx of the previous one)"""
+    out = []
+    for i, (op, ob) in enumerate(zip(rec["input"]["ops"], rec["obs"]["ops"])):
+        if i > 0 and op.get("join"):
+            out[-1].append((op, ob))
+        else:
+            out.append([(op, ob)])
+    return out
+
+
 def to_coq_case(rec):
     o = rec["obs"]
     steps = []
-    for op, ob in zip(rec["input"]["ops"], o["ops"]):
-        steps.append("(%s, %s, %s)" % (_op(op, ob), _b(ob["ok"]), _raw(ob["snap"])))
+    for tx in _txs(rec):
+        last = tx[-1][1]
+        steps.append("([%s], %s, %s)" % ("; ".join("(%s)" % _op(op, ob) for op, ob in tx), _b(last["ok"]), _raw(last["snap"])))
     return "([%s], %s, %s, [%s])" % ("; ".join(_s(b) for b in o["blocked"]), _keys(o["init"]), _raw(o["init"]), ";\n    ".join(steps))
 
 
 def _admin_before(rec):
-    """admin map (canonical) before each op"""
+    """admin map (canonical) before the TX each message rides in"""
     out = []
     cur = {d: a for d, a in rec["obs"]["init"]["admin"]}
-    for ob in rec["obs"]["ops"]:
-        out.append(dict(cur))
-        cur = {d: a for d, a in ob["snap"]["admin"]}
+    for tx in _txs(rec):
+        for _ in tx:
+            out.append(dict(cur))
+        cur = {d: a for d, a in tx[-1][1]["snap"]["admin"]}
     return out
 
 
@@ -112,6 +127,11 @@ def nontrivial(rec):
 
 def classify(rec):
     ks = ["ops=%d" % len(rec["input"]["ops"]), "genesis=%d" % len(rec["input"].get("genesis") or [])]
+    for tx in _txs(rec):
+        if len(tx) > 1:
+            ks.append("multi-msg-tx(%d):%s" % (min(len(tx), 4), "accepted" if tx[-1][1]["ok"] else "rolled-back"))
+            if len({op["sender"] for op, _ in tx}) > 1:
+                ks.append("multi-signer-tx")
     before = _admin_before(rec)
     for op, ob, adm in zip(rec["input"]["ops"], rec["obs"]["ops"], before):
         ks.append("op:%s/%s" % (op["t"], "accepted" if ob["ok"] else "rejected"))
@@ -242,7 +262,10 @@ def shrink_candidates(inp):
     ops = inp["ops"]
     for i in range(len(ops)):
         if len(ops) > 1:
-            out.append(dict(inp, ops=ops[:i] + ops[i + 1:]))
+            rest = [dict(o) for o in ops[:i] + ops[i + 1:]]
+            if ops[i].get("join") is not True and i < len(rest) and rest[i].get("join"):
+                rest[i]["join"] = False  # the head of a tx was dropped: its second message becomes the head
+            out.append(dict(inp, ops=rest))
     gs = inp.get("genesis") or []
     for i in range(len(gs)):
         out.append(dict(inp, genesis=gs[:i] + gs[i + 1:]))
@@ -270,7 +293,7 @@ MANIFEST = {
                    "every run (C15_LENIENT=1 evaluates the realised form). signature() identifies the known finding only when the lenient "
                    "checker holds on the record and model = implementation (decided by coqc on that record). Flags taken from the "
                    "implementation: sdk.ValidateDenom, bech32 parsing of mint_to/burn_from/new_admin, bank Metadata.Validate, BlockedAddr. "
-                   "One message per tx, fee 0, correctly signed. Generated facts (Gen/C15Facts.v, obligation C15_current_handlers_match_model): per handler the ordered guards / gates / writes with locals inlined and same-package helpers followed, admin-lookup store keys, DenomStr.ToStruct reject conditions, denom format. "
+                   "Txs of 1-4 messages, fee 0, correctly signed by all senders; the multi-message clause of the trace property (supply / admin move only if the tx carries such a message, first authority-needing message per denom signed by the admin on record) is evaluated on traces but proved for the model only message-wise (C15_accepted_tx_each_message). Generated facts (Gen/C15Facts.v, obligation C15_current_handlers_match_model): per handler the ordered guards / gates / writes with locals inlined and same-package helpers followed, admin-lookup store keys, DenomStr.ToStruct reject conditions, denom format. "
                    "Trusted: Coq kernel + vm_compute, the driver's address renaming (@i / @Ui, injective) and snapshot reads."),
     "technique": "Coq proof (per-message case analysis, invariants and induction over histories; refutation by vm_compute witness) + generated handler-event facts + differential correspondence on DeliverTx traces",
 }
